@@ -1454,6 +1454,50 @@ func coldWarmScenario(g *gen, idx int) *scenario {
 }
 
 // ------------------------------------------------------------------------------------------------
+// family: process-state/earlier-environment — what a session produces must not depend on which OTHER sessions the process
+// ran before it.  The scenario's own session has an environment WITHOUT a number_format (the defaults) and formats /
+// parses numbers; after every execution the same process reads and runs ANOTHER session whose environment spells out a
+// number format of its own ("," / "." on even executions, "'" / " " on odd ones), as a host serving several
+// workspaces does.  Execution n+1 therefore follows a different earlier session than execution n and than the first one;
+// the other session's output is not part of the scenario's output.
+func earlierEnvScenario(g *gen, idx int) *scenario {
+	f := newFlowB(g, "Earlier environment")
+	amount := fmt.Sprintf("%d.%03d", g.r.Range(1000, 9999999), g.r.Intn(1000))
+	f.addNode([]any{obj{"uuid": g.uuid(), "type": "send_msg",
+		"text": fmt.Sprintf("You owe @(format_number(%s, 2)) / @(%s) / @(format_number(%s)) / @(has_number(\"1.234,5\").match) / @(has_number(\"1,234.5\").match) / @(number(\"12 345,6\"))", amount, amount, amount)}}, nil, 1)
+	r, _, ne := f.switchRouter("@input.text", [][2]any{{"has_number_gt", []string{"1000"}}, {"has_number", []string{}}}, true, "Amount")
+	f.addRouterNode([]any{}, r, ne)
+	f.addNode([]any{obj{"uuid": g.uuid(), "type": "send_msg", "text": "Got @results.amount.value as @results.amount.category: @(format_number(results.amount.value)) @(json(run.results.amount))"}}, nil, 1)
+	def := f.finish()
+	assetsObj, _ := stdAssets(g, []any{def}, 0, nil, obj{})
+	env := obj{"allowed_languages": []string{"eng"}, "date_format": "YYYY-MM-DD", "time_format": "hh:mm", "timezone": "Africa/Kigali"} // no number_format
+	mkTrigger := func(e obj) json.RawMessage {
+		return mustJSON(obj{"type": "manual", "triggered_on": "2024-01-01T00:00:00.000000000-00:00", "environment": e,
+			"flow": obj{"uuid": f.uuid, "name": f.name}, "contact": contactJSON(g, map[string]string{}, nil)})
+	}
+	answer := hx.Pick(g.r, []string{"1.234,5", "1,234.5", "2'500", "12 345,6", "1234.5"})
+	p := &engineParams{Feature: "earlier-environment", Assets: mustJSON(assetsObj), Trigger: mkTrigger(env), Resumes: []string{answer}}
+	others := make([]*engineParams, 2)
+	for i, nf := range []obj{{"decimal_symbol": ",", "digit_grouping_symbol": "."}, {"decimal_symbol": "'", "digit_grouping_symbol": " "}} {
+		e := obj{"number_format": nf}
+		for k, v := range env {
+			e[k] = v
+		}
+		others[i] = &engineParams{Feature: "other-session", Assets: p.Assets, Trigger: mkTrigger(e), Resumes: []string{answer}}
+	}
+	s := &scenario{Family: "process-state/earlier-environment", Index: idx, Params: p, Nontrivial: true}
+	executions := 0
+	s.run = func() (map[string][]byte, error) {
+		out, err := runEngine(p)
+		// another session of the same process, with its own number format; what it produces is not compared
+		runEngine(others[executions%2])
+		executions++
+		return out, err
+	}
+	return s
+}
+
+// ------------------------------------------------------------------------------------------------
 // family: names/flow-resolution — what a flow NAME resolves to (SessionAssets.ResolveFlow -> flowAssets.FindByName, as the
 // contact query `flow = "..."` does) with case-variant and equal names, after the namesakes were loaded in varying order
 
